@@ -4,6 +4,12 @@ import json, os, sys
 VERIF = os.path.dirname(os.path.dirname(os.path.abspath(__file__)))
 sys.path.insert(0, os.path.join(VERIF, "tools"))
 
+KERNEL_NOTE = (" Translation tie: tools/c2lean.py regenerates lean/CmrGen/Kernels.lean from /repo's headers on every run (projectSignedHash and its "
+               "range macro, moduloTernary, moduloNonnegative, the row/column element encoding); Props/Kernels.lean proves, about the regenerated "
+               "text, that hashing never overflows for the arguments its callers pass, yields the canonical residue and makes incremental "
+               "updates consistent, that the modulo kernels are the model's field arithmetic and that the element encoding round-trips; when a "
+               "kernel theorem stops checking, tools/kernels.py searches the real C kernels (UBSan) for a concrete failing input.")
+
 COMMON_NOTE = ("Trusted: Lean 4 kernel; axioms propext, Classical.choice, Quot.sound (audited with #print axioms on every run; "
                "no sorry/admit/native_decide/own axioms); Mathlib's Matrix.det / IsTotallyUnimodular as the meaning of the terms; the "
                "correspondence plumbing (harness/*.c, tools/*.py, gcc, sanitizers). The C code is modelled, not verified: the theorem is about "
@@ -73,8 +79,9 @@ CLAIMS = {
         "exist, are over the same field and have consistent matrices; a pivot child equals the GF(2)/GF(3) pivot sequence applied to the "
         "parent; a series-parallel node's reduction list is a valid reduction sequence whose remainder is the child (or empty: the matrix "
         "is series-parallel); 1-sum blocks partition rows and columns; 2-, delta-, Y- and 3-sum children satisfy the documented composition "
-        "formula of C12 (composeX ... = ok P with P a line permutation of the parent given by the child maps). Series-parallel nodes with a TU "
-        "remainder are TU (partial TU certification; sum and pivot nodes not covered). Tie: every tree returned by CMRtuTest / CMRregularTest "
+        "formula of C12 (composeX ... = ok P with P a line permutation of the parent given by the child maps). Partial TU certification "
+        "(C03TU.lean): a node is TU whenever its children are, for series-parallel, 1-sum, ternary 2-sum and ternary pivot nodes, hence every "
+        "tree built from those kinds over TU leaves certifies a TU root (delta/Y/3-sum nodes and the leaves themselves are hypotheses). Tie: every tree returned by CMRtuTest / CMRregularTest "
         "(all strategies and option masks, small exhaustive and seeded matrices, sums of R10/R12/network blocks) and by "
         "complete/refine histories is dumped in full (types, flags, matrices, child maps, special lines, pivots, reductions read through "
         "seymour_internal.h) and run through the checker.",
@@ -185,7 +192,8 @@ def main():
             "evidence_file": "evidence/%s.json" % pid,
             "replay_cmd_template": "bin/check %s --replay {path}" % pid,
             "engine": "lean4-proof+correspondence",
-            "level_claimed": {"category": c.get("category", "proof"), "text": c["text"], "design_ref": "DESIGN.md §" + c["design"]},
+            "level_claimed": {"category": c.get("category", "proof"), "text": c["text"] + (KERNEL_NOTE if pid in ("C08", "C11", "C13") else ""),
+                              "design_ref": "DESIGN.md §A.6, §" + c["design"]},
             "level_note": c.get("note", COMMON_NOTE),
             "technique": c["technique"],
         })
